@@ -323,6 +323,13 @@ type PathCfg struct {
 	ConsistentFields map[*types.Var]bool
 	// Stop: blocks at which a path ends with End="stop" (not entered).
 	Stop        func(b *ssa.BasicBlock) bool
+	// EmitCut: also report the paths that were cut at the back-edge bound (End "cut").
+	EmitCut bool
+	// Arith: evaluate integer +, - on known constants (loop counters become concrete per iteration).
+	Arith bool
+	// Eval is set by the enumerator while it calls Classify*/Branch*: the constant a value is known to
+	// have on the current path (nil when unknown).
+	Eval        func(v ssa.Value) constant.Value
 	BackEdgeMax int // times a back edge may be taken per path (default 1)
 	MaxPaths    int
 	MaxDepth    int
@@ -486,6 +493,9 @@ func (en *enumerator) evalConst(v ssa.Value, env *penv) constant.Value {
 			}
 		}
 		a, b := en.evalConst(x.X, env), en.evalConst(x.Y, env)
+		if en.cfg.Arith && a != nil && b != nil && a.Kind() == constant.Int && b.Kind() == constant.Int && (x.Op == token.ADD || x.Op == token.SUB) {
+			return constant.BinaryOp(a, x.Op, b)
+		}
 		if a != nil && b != nil && a.Kind() == b.Kind() {
 			switch x.Op {
 			case token.EQL, token.NEQ, token.LSS, token.LEQ, token.GTR, token.GEQ:
@@ -634,8 +644,10 @@ func (en *enumerator) walk(fn *ssa.Function, b *ssa.BasicBlock, pred *ssa.BasicB
 			}
 		}
 	}
+	setEval := func(e *penv) { en.cfg.Eval = func(v ssa.Value) constant.Value { return en.evalConst(v, e) } }
 	for i := idx; i < len(b.Instrs); i++ {
 		in := b.Instrs[i]
+		setEval(env)
 		if en.cfg.Classify != nil {
 			for _, cl := range en.cfg.Classify(in) {
 				events = append(events, Event{Class: cl, In: in})
@@ -669,6 +681,30 @@ func (en *enumerator) walk(fn *ssa.Function, b *ssa.BasicBlock, pred *ssa.BasicB
 			return
 		case *ssa.Call:
 			callee, args := en.calleeToInline(&x.Call)
+			if callee == nil && en.cfg.Inline != nil && !x.Call.IsInvoke() && x.Call.StaticCallee() == nil {
+				// a call through a function-typed parameter of an expanded callee: the closure that was passed
+				if f := resolveFuncValue(resolvePhi(x.Call.Value, env)); f != nil && f.Blocks != nil && en.cfg.Inline(f) {
+					callee, args = f, x.Call.Args
+				}
+			}
+			if callee == nil && en.cfg.Inline != nil && x.Call.IsInvoke() {
+				// an interface method called on a value whose concrete type is known along this path
+				// (a strategy object handed in by the caller): the method of that type
+				rv := resolvePhi(x.Call.Value, env)
+				for k := 0; k < 4; k++ {
+					if ci, ok := rv.(*ssa.ChangeInterface); ok {
+						rv = resolvePhi(ci.X, env)
+						continue
+					}
+					break
+				}
+				if mi, ok := rv.(*ssa.MakeInterface); ok {
+					if f := fn.Prog.LookupMethod(mi.X.Type(), x.Call.Method.Pkg(), x.Call.Method.Name()); f != nil && f.Blocks != nil && ModuleFunc(f) && en.cfg.Inline(f) {
+						callee = f
+						args = append([]ssa.Value{mi.X}, x.Call.Args...)
+					}
+				}
+			}
 			if callee != nil && depth < en.cfg.MaxDepth {
 				cenv := env.clone()
 				// a new activation of the callee: forget what an earlier activation (previous loop
@@ -816,6 +852,7 @@ func (en *enumerator) walk(fn *ssa.Function, b *ssa.BasicBlock, pred *ssa.BasicB
 					return events
 				}
 				ev := events
+				setEval(env)
 				rc := resolvePhi(x.Cond, env)
 				if cn, _ := negStrip(rc); cn != nil {
 					if _, isConst := cn.(*ssa.Const); isConst {
@@ -903,6 +940,9 @@ func (en *enumerator) follow(fn *ssa.Function, from, to *ssa.BasicBlock, env *pe
 	if to.Dominates(from) { // back edge
 		e := edge{from, to}
 		if env.back[e] >= en.cfg.BackEdgeMax {
+			if en.cfg.EmitCut && depth == 0 {
+				emit(Path{Events: append([]Event(nil), events...), End: "cut", Blocks: blocks}, env)
+			}
 			return
 		}
 		env = env.clone()
